@@ -72,6 +72,9 @@ func minimise(t *testing.T, pd *PropDef, sc *Scenario, tape []int32, v Violation
 		if !mut(c) {
 			return false
 		}
+		if pd.Valid != nil && !pd.Valid(c) {
+			return false // the simplification leaves the space of scenarios the property is checked on
+		}
 		if r, nv := same(c); r != nil {
 			best, bestRes, bv = c, r, nv
 			return true
